@@ -433,6 +433,10 @@ def _check_scope(ctx, r, name):
         drains = [(b, t) for b, t in takes if any(b in g.reach_after(tt) for tt in tb)]
         if not drains:
             continue
+        for db, dt in drains:
+            fate = _drained_list_fate(ctx, mb, g, fl, db, dt)
+            if fate is not None:
+                r.ob("%s: what is taken out of %s after the traversal is emitted" % (hb["name"], name), False, C.mloc(mb, dt), fate[1])
         key = "%s: %s is saved at scope entry and restored after the drain" % (hb["name"], name)
         if _is_root_method(hb):
             r.ob("%s: %s drained at the outermost scope" % (hb["name"], name), True, C.mloc(mb, drains[0][1]), "root scope: nothing can be pending on entry (fields start empty)")
@@ -476,6 +480,111 @@ def _check_scope(ctx, r, name):
         else:
             e = g.escaping_exit(restore_blocks, start=last_t) if restore_blocks else None
             r.ob(key, False, C.mloc(mb, saves[0][1]), "the saved list is not restored on every path (%s): an outer pending declaration is lost" % ("return bb%s escapes" % e if e is not None else "no restore store"))
+
+
+def _drained_list_fate(ctx, mb, g, fl, drain_bb, t):
+    """What is taken out of a pending list after the traversal is a list of declarations the lowered code refers to: on every path
+    to return the taken value is moved into something (a VarDecl, a call) or the path knows it to be empty. Returns None when
+    that holds (or when the value is never used at all: a pure restore, judged by the abstract drain check), else (block, why)."""
+    dest = t["dest"]
+    if dest.get("p") or t.get("target") is None:
+        return None
+    alias = {dest["l"]}
+    changed = True
+    while changed:
+        changed = False
+        for blk in mb["blocks"]:
+            for st in blk["stmts"]:
+                if st["k"] == "assign" and not st["lhs"].get("p") and st["rv"].get("rk") == "use":
+                    q = st["rv"]["op"].get("move")
+                    if q and not q.get("p") and q["l"] in alias and st["lhs"]["l"] not in alias:
+                        alias.add(st["lhs"]["l"])
+                        changed = True
+
+    def moved(op):
+        q = op.get("move") if isinstance(op, dict) else None
+        return q is not None and not q.get("p") and q["l"] in alias
+    consume = set()
+    for blk in mb["blocks"]:
+        if blk.get("cleanup"):
+            continue
+        for st in blk["stmts"]:
+            if st["k"] == "assign":
+                rv = st["rv"]
+                if rv.get("rk") == "agg" and any(moved(o) for o in rv.get("ops", [])):
+                    consume.add(blk["i"])
+                if rv.get("rk") == "use" and moved(rv["op"]) and (st["lhs"].get("p") or st["lhs"]["l"] == 0):
+                    consume.add(blk["i"])       # stored into a place (a field, the return value)
+        tt = blk.get("term") or {}
+        if tt.get("k") == "call" and any(moved(a) for a in tt["args"]) and not callee_name(tt).endswith(("core::mem::drop",)):
+            consume.add(blk["i"])
+    if not consume:
+        return None
+
+    def empty_edge(x):
+        """(target when the taken list is empty) for a switch on `alias.is_empty()` / its negation"""
+        tt = mb["blocks"][x].get("term") or {}
+        if tt.get("k") != "switch":
+            return None
+        p = place_of(tt["discr"])
+        neg = False
+        l = p["l"] if p and not p.get("p") else None
+        for _ in range(6):
+            if l is None:
+                return None
+            ds = fl.defs.get(l, [])
+            if len(ds) != 1:
+                return None
+            kind, bb, d = ds[0]
+            if kind == "call":
+                if callee_name(d).endswith("::is_empty") and d["args"]:
+                    q = place_of(d["args"][0])
+                    roots = set()
+                    if q is not None:
+                        for kk, b2, d2 in fl.defs.get(q["l"], []):
+                            if kk == "stmt" and d2["rv"].get("rk") == "ref":
+                                roots.add(d2["rv"]["place"]["l"])
+                        roots.add(q["l"])
+                    if roots & alias:
+                        val = 0 if neg else 1
+                        tg = [b3 for v, b3 in tt["targets"] if v == val]
+                        return tg[0] if tg else tt.get("otherwise")
+                return None
+            rv = d["rv"]
+            if rv.get("rk") == "unop" and rv.get("op") == "Not":
+                neg = not neg
+                q = place_of(rv["a"])
+                l = q["l"] if q and not q.get("p") else None
+            elif rv.get("rk") == "use":
+                q = place_of(rv["op"])
+                l = q["l"] if q and not q.get("p") else None
+            else:
+                return None
+        return None
+    seen = set()
+    st = [t["target"]]
+    while st:
+        x = st.pop()
+        if x in seen or x in consume:
+            continue
+        seen.add(x)
+        blk = mb["blocks"][x]
+        if blk.get("cleanup"):
+            continue
+        tt = blk.get("term") or {}
+        if tt.get("k") == "return":
+            return (x, "a path from the take in bb%d reaches return (bb%d) without moving the taken declarations anywhere and without a test that finds them empty" % (drain_bb, x))
+        nxt = list(g.succ[x])
+        if tt.get("k") == "switch":
+            only = _expr_arm_only(mb, blk, tt, fl)
+            if only is not None:
+                nxt = only
+            else:
+                e = empty_edge(x)
+                if e is not None:
+                    nxt = [b for b in nxt if b != e]
+        st.extend(nxt)
+    return None
 
 
 PENDING = ("injecting_vars", "injecting_consts")
